@@ -1,8 +1,12 @@
 import PedalModel.DriverLoop
+import PedalModel.SandboxEquivWire
 open Pedal
 
-/- Line-protocol driver for C06: replace the stub dispatch with the model's request handlers. -/
+/- Line-protocol driver for C06 (see PedalModel/SandboxEquivWire.lean for the request grammar). -/
 def dispatch : List String → String
+  | "io" :: ts => SandboxEquiv.Wire.handleIO ts
+  | "call" :: ts => SandboxEquiv.Wire.handleCall ts
+  | "cfg" :: ts => SandboxEquiv.Wire.handleCfg ts
   | _ => "bad-request"
 
 def main : IO Unit := driverMain dispatch
